@@ -477,7 +477,8 @@ func blockContainerLayout(context *layoutContext, box_ Box, bottomSpace pr.Float
 		resumeAt = nil
 	}
 
-	if bi := string(box.Style.GetBreakInside()); boxIsFragmented && avoidPageBreak(bi, context) && !pageIsEmpty {
+	// a forced break (nextPage.Break != "any") fragments the box whatever break-inside says
+	if bi := string(box.Style.GetBreakInside()); boxIsFragmented && nextPage.Break == "any" && avoidPageBreak(bi, context) && !pageIsEmpty {
 		for _, footnote := range allFootnotes {
 			context.unlayoutFootnote(footnote)
 		}
